@@ -19,7 +19,7 @@ Local Notation fz := (f0 Op).
 Local Notation fone := (f1 Op).
 Local Notation "a *f b" := (fmul Op a b) (at level 40, left associativity).
 
-Definition mat := list (list F).
+Local Notation mat := (list (list F)) (only parsing).
 Definition vget (v : list F) (r : nat) : F := nth r v fz.
 Definition mget (A : mat) (i r : nat) : F := nth r (nth i A []) fz.
 Definition sumn (n : nat) (f : nat -> F) : F := bigsum F fz (fadd Op) n f.
@@ -117,3 +117,4 @@ Definition cp_mode_dot (w : list F) (fs : list mat) (x : operand) (mode : nat) (
   else Err.
 
 End M.
+Notation mat F := (list (list F)) (only parsing).
